@@ -155,8 +155,9 @@ ConvergenceOnly(pl, res1, a) ==
 (* recorded finding F13: far outside the supported range (normalised reserves skewed by more than 10^5 : 1) the invariant D
    loses precision on both paths and the operations are not refused. Trigger: that skew; residual: the invariant moves by
    less than 10^-8 of itself (swap path) / the D used to mint is within 10^-8 relative of the exact root (mint path). *)
-Skewed(pl, res) ==
-  LET xs == Norm(pl, res, One) IN \E i, j \in DOMAIN xs : BLt(BMul(xs[j], BNat(100000)), xs[i])
+SkewedBy(pl, res, k) ==
+  LET xs == Norm(pl, res, One) IN \E i, j \in DOMAIN xs : BLt(BMul(xs[j], BNat(k)), xs[i])
+Skewed(pl, res) == SkewedBy(pl, res, 100000)
 WithinRelSwap(pl, res1) ==
   pl.kind = "ss" /\ AllPositive(pl.res) /\ AllPositive(res1)
   /\ LET d0 == P!RootFloor(Ann(pl), Norm(pl, pl.res, K6)) IN P!DBelowRoot(Ann(pl), Norm(pl, res1, K6), BSub(d0, BDiv(d0, BNat(100000000))))
@@ -239,6 +240,10 @@ JudgeSwap(s, e, p) ==
        C13_belief_within_tolerance |-> G(good /\ e.belief.set /\ e.belief.v # Z, BeliefAllowed(dx, e.belief.v, r.ret, tol)),
        C13_belief_rejected_only_beyond_tolerance |-> G(~e.ok /\ e.err = "slippage" /\ wellformed /\ e.belief.set /\ e.belief.v # Z /\ q.ok,
                                                        BeliefRejectedRightly(dx, e.belief.v, q.ret, tol)),
+       \* inside the supported range (reserves skewed by at most 1000 : 1, decimals up to 18, amplification up to 10^6, an offer
+       \* of at least one unit and at most the reserve of the offered asset) a quote exists
+       C19_quote_available_in_supported_range |-> G(wellformed /\ ss /\ dx # Z /\ BLe(dx, pl.res[o]) /\ MaxDec(pl) <= 18
+                                                    /\ BLe(pl.amp, BNat(1000000)) /\ ~SkewedBy(pl, pl.res, 1000), q.ok),
        C19_quote_near_exact    |-> G(q.ok /\ wellformed /\ ss /\ dx # Z, QuoteNearExact(pl, o, a, dx, Gross(q))),
        C19_refuses_without_valid_invariant |-> G(wellformed /\ pl.kind = "ss" /\ ~AllPositive(pl.res) /\ dx # Z,
                                                  (~q.ok \/ Gross(q) = Z) /\ (~e.ok \/ r.ret = Z)),   \* nothing is priced off a degenerate invariant
